@@ -53,6 +53,10 @@ def _sweep_worker(ys):
             iy, iw, iwd = d.isocalendar()
             yday = d.timetuple().tm_yday
             dz = call("__ymd_to_daisy", {"y": y, "m": m, "d": dd})
+            n += 1
+            if not isinstance(dz, int) or dz - _G["dz0"] != d.toordinal() - datetime.date(1917, 1, 1).toordinal():
+                bad.setdefault("__ymd_to_daisy", []).append((d.isoformat(), "day number", "%s days after 1917-01-01" % (dz - _G["dz0"] if isinstance(dz, int) else dz),
+                                                             str(d.toordinal() - datetime.date(1917, 1, 1).toordinal())))
             for name, fields, exp in (("__daisy_to_ymd", ("y", "m", "d"), (y, m, dd)), ("__daisy_to_yd", ("y", "d"), (y, yday)),
                                       ("__daisy_to_ywd", ("y", "c", "w"), (iy, iw, iwd)), ("__daisy_to_ymcw", ("y", "m", "c", "w"), (y, m, _wcnt_mon(d), iwd))):
                 r = call(name, dz)
@@ -66,7 +70,8 @@ def _sweep_worker(ys):
 def run_sweep(R, tu, rule, lo=1602, hi=4093, jobs=12):
     """hi = 4093: the last 606 days of the range are the known finding D21 (RF2-range)"""
     import multiprocessing as mp
-    _G.update(tu=tu)
+    fo = fold.Folder(tu.func("__ymd_to_daisy"), calls={}, inline=True, max_steps=400000)
+    _G.update(tu=tu, dz0=fo.run([{"y": 1917, "m": 1, "d": 1}]))
     years = list(range(lo, hi + 1))
     chunks = [years[i::jobs] for i in range(jobs)]
     ctx = mp.get_context("fork")
@@ -78,7 +83,7 @@ def run_sweep(R, tu, rule, lo=1602, hi=4093, jobs=12):
         n += k
         for name, lst in b.items():
             bad.setdefault(name, []).extend(lst)
-    for name in ("__daisy_to_ymd", "__daisy_to_yd", "__daisy_to_ywd", "__daisy_to_ymcw"):
+    for name in ("__ymd_to_daisy", "__daisy_to_ymd", "__daisy_to_yd", "__daisy_to_ywd", "__daisy_to_ymcw"):
         f = tu.func(name)
         R.saw(f)
         if name in bad:
